@@ -449,15 +449,15 @@ Proof.
   intros H. destruct c; simpl; try exact H.
   - pose proof (tables_ok_add R rule pattern nm flts methods h name overwrite H) as G.
     destruct (rt_add R rule pattern nm flts methods h name overwrite). exact G.
-  - unfold rt_remove_pattern. destruct (rd_remove (tree R) pattern false); [|exact H].
+  - unfold rt_remove_pattern. destruct (rd_remove (tree R) pattern false false); [|exact H].
     destruct (ends_star pattern); exact H.
   - unfold rt_remove_name. destruct (al_get (named R) name); [|exact H].
     destruct (pattern_of_rid R r); [|exact H].
-    destruct (rd_remove (tree R) s false); [|exact H].
+    destruct (rd_remove (tree R) s false true); [|exact H].
     destruct (al_get (routes R) s); exact H.
   - unfold rt_add_hook. destruct (rt_match_hooks R pattern); [exact H|].
     destruct (set_at _ _ _ _ _ _); exact H.
-  - unfold rt_remove_hook. destruct (rd_remove (tree R) pattern true); exact H.
+  - unfold rt_remove_hook. destruct (rd_remove (tree R) pattern true false); exact H.
   - unfold rt_remove_method. destruct (rt_match R pattern flts) as [d|]; [|exact H].
     destruct (nth_error (heap R) d) as [rt|] eqn:E; [|exact H].
     unfold tables_ok in *. simpl. apply Forall_heap_set; [exact H|].
